@@ -3,13 +3,80 @@ import vlib
 from props import opseq
 
 HARNESS = ("atomh",)
-TRUSTED = ["PARTIAL: proved for sequentially consistent interleavings only. The Release/Acquire fences and orderings of sync_cell.rs are tied syntactically (the Ordering argument of every atomic operation of the real code is recorded under the deterministic scheduler and compared with the expected sequence); no weak-memory (C11) semantics is modelled (WMem.v of the design was not built), so a change of ordering is reported as a broken correspondence with no-failing-input-found",
+TRUSTED = ["memory model: Model/WMem.v is a view-based operational semantics of release/acquire + relaxed accesses and fences in the style of ORC11 / the promise-free promising semantics (RC11 without load buffering); stores append to the modification order (exact for single-writer locations); no same-thread release sequences (the weaker reading); SeqCst/AcqRel are outside the fragment (the translator refuses them); that this machine captures the behaviours of the Rust/C++ memory model on the target hardware is assumed, not proved",
+           "translator T2 tools/gen_synccell.py: SyncCell::write, SyncCellReader::try_read and TearableAtomicTime::tearable_load/store are translated statement by statement into gen/SyncCellProg.v on every run (unknown statements are refused); the theorems c15_wm_* are stated on the generated programs; the sequence of memory orderings the compiled code actually executes (recorded under the deterministic scheduler) is compared with the generated programs on every run",
+           "sequence-number wrap-around (2^63 writes) excluded; the search for a failing weak-memory execution (ocaml/driver.ml wm_search) is a bounded exploration used only to find a replay, never as evidence that the property holds",
            "TearableAtomicTime of time/monotonic_time.rs uses std atomics and is re-implemented in the harness over instrumented atomics; tools/gen_consts.py checks its load/store shape in the source on every run",
            "u64/u32 halves; MonotonicTime::new(..).unwrap() range checks not modelled"]
 ASSUMPTIONS = ["one writer (the simulation thread), any number of readers"]
 
 W_EXPECT = ["load-rlx", "store-rlx", "fence-rel", "store-rlx", "store-rlx", "store-rel"]
 R_EXPECT_OK = ["load-acq", "load-rlx", "load-rlx", "fence-acq", "load-rlx"]
+
+
+def gen_programs():
+    """the two programs the translator derives from the current source, as driver tokens, and the
+    sequences of orderings they imply (which the executed code must show)"""
+    import gen_synccell
+    try:
+        w, r = gen_synccell.generate()
+    except gen_synccell.Refuse as e:
+        raise vlib.BrokenTie("translator gen_synccell.py refused the current source", str(e))
+    LOC = {"LSeq": "Seq", "LSec": "Sec", "LNan": "Nan"}
+
+    def tok(i):
+        f = i.replace("(", " ").replace(")", " ").split()
+        if f[0] == "Ld":
+            return "Ld,%s,%s,%s" % (LOC[f[1]], f[2], f[3])
+        if f[0] == "St":
+            e = {"EArgA": "A", "EArgB": "B"}.get(f[3]) or "%s+%s" % (f[4], f[5])
+            return "St,%s,%s,%s" % (LOC[f[1]], f[2], e)
+        if f[0] == "Fn":
+            return "Fn," + f[1]
+        if f[0] == "FailIfOdd":
+            return "Odd," + f[1]
+        if f[0] == "RetIfEq":
+            return "Ret," + ",".join(f[1:5])
+        raise vlib.BrokenTie("gen_synccell produced an unknown instruction", i)
+
+    def ords(p):
+        out = []
+        for i in p:
+            f = i.split()
+            if f[0] in ("Ld", "St"):
+                out.append(("load-" if f[0] == "Ld" else "store-") + f[2].lower())
+            elif f[0] == "Fn":
+                out.append("fence-" + f[1].lower())
+        return out
+    return [tok(i) for i in w], [tok(i) for i in r], ords(w), ords(r)
+
+
+def wm_search(rep, wt, rt, tier, report_found):
+    """bounded exploration of the weak-memory machine on the GENERATED programs, looking for a torn
+    or backward read"""
+    q = tier == "quick"
+    cfgs = [("I 1 10 V 2 20 N 1", 14, 2), ("I 1 10 V 2 20 3 30 N 1", 22 if q else 30, 3), ("I 1 10 V 2 20 N 2", 16 if q else 22, 2)]
+    if not q:
+        cfgs.append(("I 1 10 V 2 20 3 30 4 40 N 2", 30, 4))
+    lines = ["wmsearch W %s R %s %s D %d C %d" % (" ".join(wt), " ".join(rt), c, d, mc) for c, d, mc in cfgs]
+    outs = vlib.run_model(lines, shards=min(len(lines), 4))
+    res = []
+    for l, o in zip(lines, outs):
+        res.append({"config": l.split(" I ")[1], "result": o[:400]})
+        if o.startswith("FOUND") and report_found:
+            f = [x.strip() for x in o.split("|")]
+            rep.violation("weak-memory-execution", {
+                "kind": "property-violated-on-the-model-of-the-current-source",
+                "what": "under the release/acquire memory model (coq/Model/WMem.v) the programs generated from the current util/sync_cell.rs + time/monotonic_time.rs return a time the cell never held, or an older time after a newer one",
+                "writer_program": wt, "reader_program": rt, "config": l.split(" I ")[1],
+                "schedule_thread_choice": f[1], "reader_outputs": f[2], "values_the_cell_held": f[3],
+                "replay": "echo '%s' | .build/ocaml/modelrun   (then: wm ... S <schedule>)" % l,
+                "note": "a weak-memory execution: x86 hardware and the SC scheduler of the harness cannot exhibit it; loom (cfg nexosim_loom) or a weakly ordered CPU can"})
+            break
+        if not (o.startswith("NONE") or o.startswith("FOUND")):
+            raise vlib.BrokenTie("model runner failed on wmsearch", o[:400])
+    rep.cov.setdefault("parts", {})["weak-memory-search"] = res
+    return any(r["result"].startswith("FOUND") for r in res)
 
 
 def gen(rng, n):
@@ -24,28 +91,35 @@ def gen(rng, n):
     return out
 
 
-def check_orderings(ords):
+def check_orderings(ords, W_EXPECT=W_EXPECT, R_EXPECT_OK=R_EXPECT_OK):
     w, r = [x.split(",") if x.strip() else [] for x in ords.split(" ; ")]
-    for i in range(0, len(w), 6):
-        if w[i:i + 6] != W_EXPECT[:len(w[i:i + 6])]:
-            return "writer orderings %s, expected repetitions of %s" % (w[i:i + 6], W_EXPECT)
+    nw, nr = len(W_EXPECT), len(R_EXPECT_OK)
+    for i in range(0, len(w), nw):
+        if w[i:i + nw] != W_EXPECT[:len(w[i:i + nw])]:
+            return "writer orderings %s, expected repetitions of %s" % (w[i:i + nw], W_EXPECT)
     i = 0
     while i < len(r):
-        if r[i] != "load-acq":
-            return "reader orderings: %s at %d, expected load-acq" % (r[i], i)
-        if r[i + 1:i + 5] == R_EXPECT_OK[1:]:
-            i += 5
-        elif i + 1 <= len(r) and (i + 1 == len(r) or r[i + 1] == "load-acq"):
+        if r[i] != R_EXPECT_OK[0]:
+            return "reader orderings: %s at %d, expected %s" % (r[i], i, R_EXPECT_OK[0])
+        if r[i + 1:i + nr] == R_EXPECT_OK[1:]:
+            i += nr
+        elif i + 1 <= len(r) and (i + 1 == len(r) or (r[i + 1] == R_EXPECT_OK[0] and R_EXPECT_OK[1:2] != R_EXPECT_OK[0:1])):
             i += 1      # odd sequence number: immediate Err
         elif r[i + 1:] == R_EXPECT_OK[1:1 + len(r[i + 1:])]:
             break       # truncated by the step budget / end of run
         else:
-            return "reader orderings %s, expected %s" % (r[i:i + 5], R_EXPECT_OK)
+            return "reader orderings %s, expected %s" % (r[i:i + nr], R_EXPECT_OK)
     return None
 
 
 def tie(rep, tier, rng, model_ok):
     q = tier == "quick"
+    wt, rt, w_ords, r_ords = gen_programs()
+    found = False
+    if vlib.RUNNER_OK:
+        # on an unbroken proof this can find nothing (c15_wm_not_torn); when the proof obligation
+        # "generated = proved program" is broken it is the search for a failing input
+        found = wm_search(rep, wt, rt, tier, report_found=True)
     cases = opseq.load_corpus("C15") + gen(rng, 3000 if q else 60000)
     outs = vlib.run_lines(vlib.ATOMH, ["seq"], cases)
     parsed, model_lines = [], []
@@ -67,15 +141,15 @@ def tie(rep, tier, rng, model_ok):
             bad_oracle.append((c, f[0]))
         if m is not None and m.strip() != f[2].strip():
             bad_model.append((c, f[2], m))
-        e = check_orderings(f[3])
+        e = check_orderings(f[3], w_ords, r_ords)
         if e:
             bad_ord.append((c, e))
     nontriv = sum(1 for f in parsed if len(f) > 2 and f[2].replace(";", "").strip())
     rep.cov["evaluations"] += len(cases)
     rep.cov["distinct_nontrivial"] += len(distinct)
     rep.cov["traces_validated_against_impl"] += len(cases) if model_ok else 0
-    rep.cov["parts"] = {"seqlock-schedules": {"schedules": len(cases), "distinct": len(distinct), "with_successful_reads": nontriv,
-                                             "oracle_failures": len(bad_oracle), "model_disagreements": len(bad_model), "ordering_mismatches": len(bad_ord)}}
+    rep.cov.setdefault("parts", {})["seqlock-schedules"] = ({"schedules": len(cases), "distinct": len(distinct), "with_successful_reads": nontriv,
+                                             "oracle_failures": len(bad_oracle), "model_disagreements": len(bad_model), "ordering_mismatches": len(bad_ord)})
     rep.cov["rule"] = "1 writer x 1-3 writes, 1-3 readers x 1-4 try_read attempts, random schedules at atomic-operation granularity on the verbatim sync_cell.rs; the model is run on the decisions actually taken and must return the same values per reader; distinct = distinct (decisions, outputs)"
     rep.cov["samples"] = [{"case": cases[0], "impl": outs[0][:300], "model": mouts[0]}]
     if bad_oracle:
@@ -91,4 +165,18 @@ def tie(rep, tier, rng, model_ok):
 def replay(rep, path, model_ok):
     import json
     r = json.load(open(path))
+    if "schedule_thread_choice" in r:
+        cfg = r["config"].split(" D ")[0]
+        line = "wm W %s R %s I %s S %s" % (" ".join(r["writer_program"]), " ".join(r["reader_program"]), cfg, r["schedule_thread_choice"])
+        out = vlib.run_model([line], shards=1)[0]
+        print("weak-memory execution of the recorded programs:", line)
+        print("reader outputs | values the cell held:", out)
+        wt, rt, _, _ = gen_programs()
+        print("programs generated from the current source:", wt, rt)
+        outs, hist = [x.strip() for x in out.split("|")]
+        held = hist.split()
+        torn = [v for v in outs.replace(";", " ").split() if v not in held]
+        if torn and wt == r["writer_program"] and rt == r["reader_program"]:
+            rep.violation("replay", {"kind": "property-violated-on-the-model-of-the-current-source", "torn_values": torn, "line": line})
+        return
     print("case:", r.get("case")); print("impl:", vlib.run_lines(vlib.ATOMH, ["seq"], [r["case"]], shards=1)[0][:1500])
